@@ -45,6 +45,25 @@
 //!   * restored transactions get a fresh 5 s deadline that cannot be configured; in a few chain
 //!     restarts the harness waits it out, so that the sweeper really times restored transactions out
 //!     (with and without a preceding `recover()`), and the next crash must keep them aborted.
+//!   * messages that arrive again after the restart (*re-delivery* step of every restart script, and
+//!     late votes of the live workload): a vote for a transaction that is completed or forgotten —
+//!     it must not change the outcome: no abort broadcast for a committed transaction (queue, and
+//!     the TxAbort messages `process_pending_aborts` sends), and nothing the restarted coordinator
+//!     appends to its log completes a completed transaction the other way
+//!     (`log-contradicts-completed-outcome:*`, judged on the bytes of the log: records appended
+//!     during the restart script, and all records of a live epoch); a PREPARE for a restored
+//!     transaction, answered by the coordinator's own `handle_prepare` (fresh key locks under a
+//!     handle no restored vote carries) and refused as a vote — whichever call then completes the
+//!     transaction (`commit`, `abort`, `complete_*`, the sweeper) leaves no lock of it behind
+//!     (`locks-left-after-completion*`; also for completions on the live coordinator of a later epoch).
+//!   * a decision the restarted coordinator handed out for broadcast (`get_pending_decisions()`:
+//!     COMMIT for a transaction restored / decided as Committing, ABORT for Aborting) is an announced
+//!     outcome: the transaction is not afterwards timed out, aborted (resp. committed) or queued for
+//!     the opposite broadcast, in any order of sweeps and completion calls
+//!     (`handed-out-decision-reversed:*`). The coordinators run with every configurable timeout at
+//!     0 ms (prepare and commit; a quarter of the cases keeps the default commit timeout), so that a
+//!     sweep finds due whatever the configuration can make due; sweeps run before and after the
+//!     completion calls.
 
 use common::*;
 use serde_json::{json, Value};
@@ -61,6 +80,8 @@ use tensor_store::SparseVector;
 
 const DIM: usize = 4;
 const FLOOR_UNLOGGED_PHASE: u64 = 8;
+const FLOOR_LIVE_LATE_VOTE: u64 = 100;
+const FLOOR_DECIDED_AT_SWEEP: u64 = 5_000;
 /// `complete_commit()`/`complete_abort()` returning Ok are taken as announced completions, like
 /// `commit()`/`abort()` (the code logs the decision `recover()` takes and the completion since the
 /// repair 3515d35a; before it the check fired on the unchanged tree, see `witness`).
@@ -431,8 +452,59 @@ fn block_on<F: std::future::Future>(f: F) -> Option<F::Output> {
 // ------------------------------------------------------------------------------------------------
 
 fn new_coordinator(wal: TxWal) -> DistributedTxCoordinator {
-    let cfg = DistributedTxConfig { prepare_timeout_ms: 0, ..DistributedTxConfig::default() };
+    new_coordinator_cfg(wal, DistributedTxConfig::default().commit_timeout_ms)
+}
+
+/// every timeout the configuration offers is a dimension of the workload: prepare always 0 ms,
+/// commit 0 ms or the default (what a transaction restored from the log gets is not configurable)
+fn new_coordinator_cfg(wal: TxWal, commit_timeout_ms: u64) -> DistributedTxCoordinator {
+    let cfg = DistributedTxConfig { prepare_timeout_ms: 0, commit_timeout_ms, ..DistributedTxConfig::default() };
     DistributedTxCoordinator::new(ConsensusManager::default_config(), cfg).with_wal(wal)
+}
+
+fn commit_timeout_of_case(case_seed: u64) -> u64 {
+    if hash_combine(case_seed, 0xC7_0) % 4 == 0 {
+        DistributedTxConfig::default().commit_timeout_ms
+    } else {
+        0
+    }
+}
+
+/// what a restart script needs besides the coordinator: the log file it appends to, a seed for the
+/// decisions that were added later (own stream, so that a case seed keeps its older meaning), and
+/// the verdicts of the votes it logs (offset of the record, accepted?)
+struct ScriptIo<'a> {
+    wal_path: &'a Path,
+    xseed: u64,
+    votes_logged: Vec<(usize, bool)>,
+}
+
+/// TxComplete records among `appended` that contradict the outcome a transaction was completed
+/// with before (`prior`: what held before these records) or by an earlier one of these records.
+fn completion_conflicts(prior: &dyn Fn(u64) -> Option<(TxOutcome, String, String)>, appended: &[Rec], names: &Names, rep: &mut Report) -> Vec<Found> {
+    let mut first: HashMap<u64, (TxOutcome, String, String)> = HashMap::new();
+    let mut out = Vec::new();
+    for r in appended {
+        if let TxWalEntry::TxComplete { tx_id, outcome } = &r.entry {
+            rep.count("checked:completion-records-appended", 1);
+            let before = first.get(tx_id).cloned().or_else(|| prior(*tx_id));
+            match before {
+                Some((o, was, sfx)) => {
+                    rep.count("checked:completion-record-of-completed-tx", 1);
+                    if o != *outcome {
+                        out.push(Found {
+                            sig: format!("log-contradicts-completed-outcome:{:?}-then-{:?}{}", o, outcome, sfx),
+                            detail: format!("{} {}; afterwards the coordinator appended TxComplete({:?}) for it to its log", names.n(*tx_id), was, outcome),
+                        });
+                    }
+                }
+                None => {
+                    first.insert(*tx_id, (*outcome, format!("was logged {:?} (earlier record of the same incarnation)", outcome), String::new()));
+                }
+            }
+        }
+    }
+    out
 }
 
 fn file_len(p: &Path) -> usize {
@@ -469,9 +541,14 @@ fn recovery_script(
     rng: &mut Rng,
     out: &mut Vec<Found>,
     rep: &mut Report,
-    late_sweep: bool,
+    late_wait_ms: u64,
     acks_out: &mut Vec<(u64, TxOutcome, &'static str)>,
+    io: &mut ScriptIo,
 ) -> bool {
+    // decisions of the steps that were added later
+    let mut xr = Rng::new(hash_combine(io.xseed, 0x5EDE_11));
+    // where this incarnation starts appending (a torn tail is gone by now)
+    let len0 = file_len(io.wal_path);
     let stats = match coord.recover_from_wal() {
         Ok(s) => s,
         Err(e) => {
@@ -663,8 +740,141 @@ fn recovery_script(
         }
     }
 
+    // ---- messages that arrive again after the restart. A participant that has not heard the
+    // outcome sends its vote again (the transaction is completed or forgotten here: the vote must
+    // change nothing); a PREPARE for a restored transaction is answered by the coordinator's own
+    // prepare path (fresh key locks under a handle no restored vote carries) and the vote refused.
+    {
+        let mut order: Vec<u64> = model.keys().copied().collect();
+        xr.shuffle(&mut order);
+        for tx in order {
+            if !xr.chance(3, 5) {
+                continue;
+            }
+            let t = &model[&tx];
+            let shard = if t.participants.is_empty() || xr.chance(1, 8) { 3 + xr.below(3) } else { *xr.pick(&t.participants) };
+            let pending = coord.get(tx).is_some();
+            let vote = if pending {
+                let key = if xr.chance(1, 6) { "g0".to_string() } else { format!("s{}:k{}", shard, xr.below(3)) };
+                let req = PrepareRequest {
+                    tx_id: tx,
+                    coordinator: "coord".to_string(),
+                    operations: vec![Transaction::Put { key, data: vec![4, 5, 6] }],
+                    delta_embedding: SparseVector::from_dense(&vec![0.0f32; DIM]),
+                    timeout_ms: 5000,
+                };
+                rep.count("redelivery:prepare-for-restored-tx", 1);
+                coord.handle_prepare(&req)
+            } else if xr.chance(3, 4) {
+                PrepareVote::Yes { lock_handle: 3_000_000 + xr.below(1_000_000) as u64, delta: DeltaVector::zero(DIM) }
+            } else {
+                PrepareVote::No { reason: "late no".to_string() }
+            };
+            let yes = matches!(vote, PrepareVote::Yes { .. });
+            let at = file_len(io.wal_path);
+            let res = coord.record_vote(tx, shard, vote);
+            if file_len(io.wal_path) > at {
+                io.votes_logged.push((at, res.is_ok()));
+            }
+            if pending {
+                if coord.lock_manager().lock_count_for_transaction(tx) > 0 {
+                    rep.count("redelivery:restored-tx-holds-fresh-locks", 1);
+                }
+            } else {
+                rep.count("redelivery:vote-for-tx-that-is-not-pending", 1);
+                match t.done() {
+                    Some(TxOutcome::Committed) if yes => rep.count("redelivery:yes-vote-for-committed-tx", 1),
+                    Some(TxOutcome::Aborted) => rep.count("redelivery:vote-for-aborted-tx", 1),
+                    Some(_) => {}
+                    None => rep.count("redelivery:vote-for-forgotten-tx", 1),
+                }
+            }
+        }
+    }
+
+    // ---- the sweeper and the abort broadcast queue must leave completed outcomes alone
+    let judge_sweep = |swept: &[u64], queued: &[(u64, String, Vec<usize>)], out: &mut Vec<Found>, done_now: &mut Vec<(u64, TxOutcome, &'static str)>, rep: &mut Report| {
+        for (&tx, t) in model {
+            match t.class() {
+                Class::Committed | Class::Aborted => {
+                    if swept.contains(&tx) {
+                        out.push(Found {
+                            sig: format!("logged-outcome-reversed:timed-out-after-{:?}{}", t.done().unwrap(), t.sfx()),
+                            detail: format!("{} {}; cleanup_timeouts() after restart returned it", names.n(tx), t.was()),
+                        });
+                    }
+                    if t.class() == Class::Committed && queued.iter().any(|(id, _, _)| *id == tx) {
+                        out.push(Found { sig: format!("logged-commit-reversed:abort-broadcast-queued{}", t.sfx()), detail: format!("{} {}; an abort broadcast is queued after restart", names.n(tx), t.was()) });
+                    }
+                }
+                _ => {
+                    // COMMIT was handed out for it by this coordinator: the deadline is over for it
+                    if decisions.get(&tx) == Some(&TxPhase::Committing) {
+                        if swept.contains(&tx) {
+                            out.push(Found {
+                                sig: "handed-out-decision-reversed:COMMIT-then-timed-out".into(),
+                                detail: format!("{} came back in phase Committing (or recover() decided so) and get_pending_decisions() of the restarted coordinator handed COMMIT out for it; a later cleanup_timeouts() returned it as timed out (ABORT is logged and queued for broadcast)", names.n(tx)),
+                            });
+                        }
+                        if queued.iter().any(|(id, _, _)| *id == tx) {
+                            out.push(Found {
+                                sig: "handed-out-decision-reversed:COMMIT-then-abort-broadcast-queued".into(),
+                                detail: format!("{}: get_pending_decisions() of the restarted coordinator handed COMMIT out for it; afterwards an abort broadcast is queued for it", names.n(tx)),
+                            });
+                        }
+                    }
+                    if swept.contains(&tx) {
+                        rep.count("restored_tx_returned_by_sweeper", 1);
+                        if let Some((_, o, how)) = done_now.iter().find(|(d, _, _)| *d == tx) {
+                            if *o == TxOutcome::Committed {
+                                out.push(Found {
+                                    sig: "logged-outcome-reversed:timed-out-after-Committed:completed-since-the-restart".into(),
+                                    detail: format!("{} was completed as Committed after the restart ({} returned Ok); a later cleanup_timeouts() returned it as timed out", names.n(tx), how),
+                                });
+                            }
+                        } else {
+                            // a timeout the sweeper reports is an abort it announces (the broadcast is queued)
+                            done_now.push((tx, TxOutcome::Aborted, "cleanup_timeouts()"));
+                        }
+                        let left = coord.lock_manager().keys_for_transaction(tx);
+                        if !left.is_empty() {
+                            out.push(Found {
+                                sig: "locks-left-after-completion:cleanup_timeouts()".into(),
+                                detail: format!("{} was timed out by cleanup_timeouts() after the restart but still holds key locks {:?}", names.n(tx), left),
+                            });
+                        }
+                    }
+                }
+            }
+        }
+    };
+    // a sweep only finds a 0 ms deadline over once 1 ms has passed since the restore: in a
+    // quarter of the scripts that have pending transactions the harness makes sure of it
+    let make_due = xr.chance(1, 4);
+    let wait_if_pending = |coord: &DistributedTxCoordinator, rep: &mut Report| {
+        if model.keys().any(|tx| coord.get(*tx).is_some()) {
+            if make_due {
+                std::thread::sleep(Duration::from_micros(1100));
+                rep.count("sweeps_after_restart_with_0ms_deadlines_over", 1);
+                // decided transactions such a sweep meets (only their completion is outstanding)
+                let decided = model.keys().filter(|tx| coord.get(**tx).map(|t| decisions.get(*tx) == Some(&t.phase)).unwrap_or(false)).count();
+                rep.count("decided_tx_pending_at_sweep_with_0ms_deadlines_over", decided as u64);
+            }
+            true
+        } else {
+            false
+        }
+    };
+
     // ---- hostile calls against logged outcomes, completion of unfinished transactions
     let mut done_now: Vec<(u64, TxOutcome, &'static str)> = Vec::new(); // completions announced by this coordinator
+    // "every following sequence of recovery calls, timeouts ...": sometimes the sweeper runs first
+    if xr.chance(1, 3) && wait_if_pending(coord, rep) {
+        let swept = coord.cleanup_timeouts();
+        let queued = coord.take_pending_aborts();
+        rep.count("early_sweeps_after_restart", 1);
+        judge_sweep(&swept, &queued, out, &mut done_now, rep);
+    }
     let mut order: Vec<u64> = model.keys().copied().collect();
     rng.shuffle(&mut order);
     for tx in order {
@@ -707,17 +917,46 @@ fn recovery_script(
                     continue;
                 }
                 let Some(cur) = coord.get(tx) else {
-                    if ran_recover && present_after_replay.contains(&tx) {
+                    if ran_recover && present_after_replay.contains(&tx) && !done_now.iter().any(|(d, _, _)| *d == tx) {
                         out.push(Found { sig: "voted-tx-lost-by-recover".into(), detail: format!("{} disappeared during recover()", n) });
                     }
                     continue; // absence right after recover_from_wal was reported above
                 };
+                // a decision this coordinator handed out for broadcast is final: the calls that
+                // would complete the transaction the other way are refused
+                if decisions.get(&tx) == Some(&cur.phase) && xr.chance(1, 2) {
+                    match cur.phase {
+                        TxPhase::Committing => {
+                            rep.count("hostile:abort-after-COMMIT-handed-out", 1);
+                            if coord.abort(tx, "late abort").is_ok() {
+                                out.push(Found { sig: "handed-out-decision-reversed:COMMIT-then-abort-accepted".into(), detail: format!("{}: get_pending_decisions() of the restarted coordinator handed COMMIT out for it; abort() afterwards succeeded", n) });
+                            }
+                            if coord.complete_abort(tx).is_ok() {
+                                out.push(Found { sig: "handed-out-decision-reversed:COMMIT-then-complete_abort-accepted".into(), detail: format!("{}: get_pending_decisions() of the restarted coordinator handed COMMIT out for it; complete_abort() afterwards succeeded", n) });
+                            }
+                        }
+                        TxPhase::Aborting => {
+                            rep.count("hostile:commit-after-ABORT-handed-out", 1);
+                            if coord.commit(tx).is_ok() {
+                                out.push(Found { sig: "handed-out-decision-reversed:ABORT-then-commit-accepted".into(), detail: format!("{}: get_pending_decisions() of the restarted coordinator handed ABORT out for it; commit() afterwards succeeded", n) });
+                            }
+                            if coord.complete_commit(tx).is_ok() {
+                                out.push(Found { sig: "handed-out-decision-reversed:ABORT-then-complete_commit-accepted".into(), detail: format!("{}: get_pending_decisions() of the restarted coordinator handed ABORT out for it; complete_commit() afterwards succeeded", n) });
+                            }
+                        }
+                        _ => {}
+                    }
+                }
                 let res = match cur.phase {
                     TxPhase::Prepared => {
                         // a prepared transaction without outcome may legitimately be aborted too
                         if rng.below(4) == 0 {
                             if coord.abort(tx, "client abort after restart").is_ok() {
                                 done_now.push((tx, TxOutcome::Aborted, "abort()"));
+                                let left = coord.lock_manager().keys_for_transaction(tx);
+                                if !left.is_empty() {
+                                    out.push(Found { sig: "locks-left-after-completion:abort()".into(), detail: format!("{} was aborted after the restart (abort() returned Ok) but still holds key locks {:?}", n, left) });
+                                }
                             }
                             continue;
                         }
@@ -757,40 +996,18 @@ fn recovery_script(
         }
     }
 
-    // ---- the sweeper and the abort broadcast queue must leave completed outcomes alone
-    let judge_sweep = |swept: &[u64], queued: &[(u64, String, Vec<usize>)], out: &mut Vec<Found>, done_now: &mut Vec<(u64, TxOutcome, &'static str)>| {
-        for (&tx, t) in model {
-            match t.class() {
-                Class::Committed | Class::Aborted => {
-                    if swept.contains(&tx) {
-                        out.push(Found {
-                            sig: format!("logged-outcome-reversed:timed-out-after-{:?}{}", t.done().unwrap(), t.sfx()),
-                            detail: format!("{} {}; cleanup_timeouts() after restart returned it", names.n(tx), t.was()),
-                        });
-                    }
-                    if t.class() == Class::Committed && queued.iter().any(|(id, _, _)| *id == tx) {
-                        out.push(Found { sig: format!("logged-commit-reversed:abort-broadcast-queued{}", t.sfx()), detail: format!("{} {}; an abort broadcast is queued after restart", names.n(tx), t.was()) });
-                    }
-                }
-                _ => {
-                    // a timeout the sweeper reports is an abort it announces (the broadcast is queued)
-                    if swept.contains(&tx) && !done_now.iter().any(|(d, _, _)| *d == tx) {
-                        done_now.push((tx, TxOutcome::Aborted, "cleanup_timeouts()"));
-                    }
-                }
-            }
-        }
-    };
+    // ---- the regular sweep
+    wait_if_pending(coord, rep);
     let swept = coord.cleanup_timeouts();
     let queued = coord.take_pending_aborts();
     rep.count("sweeps_after_restart", 1);
-    judge_sweep(&swept, &queued, out, &mut done_now);
+    judge_sweep(&swept, &queued, out, &mut done_now, rep);
 
     // ---- restored transactions get a fresh deadline (5 s, not configurable): in a few restarts
     // the harness lets it pass, so that the sweeper really times restored transactions out —
     // sometimes after recover(), which first turns them into Aborting in memory only
-    if late_sweep && model.keys().any(|tx| coord.get(*tx).is_some()) {
-        std::thread::sleep(Duration::from_millis(5100));
+    if late_wait_ms > 0 && model.keys().any(|tx| coord.get(*tx).is_some()) {
+        std::thread::sleep(Duration::from_millis(late_wait_ms));
         let pending_before: Vec<u64> = model.keys().copied().filter(|tx| coord.get(*tx).is_some()).collect();
         if rng.bool() {
             let _ = coord.recover();
@@ -800,7 +1017,7 @@ fn recovery_script(
         let queued = coord.take_pending_aborts();
         rep.count("late_sweeps_after_restart", 1);
         rep.count("restored_tx_timed_out_after_restart", swept.iter().filter(|t| pending_before.contains(t)).count() as u64);
-        judge_sweep(&swept, &queued, out, &mut done_now);
+        judge_sweep(&swept, &queued, out, &mut done_now, rep);
     }
 
     // ---- a later recovery call on the same coordinator: every completion that was announced by
@@ -850,12 +1067,38 @@ fn recovery_script(
             }
         }
     }
+    // ---- what this incarnation appended to its log never completes a completed transaction the
+    // other way (whatever call or message made it write the record)
+    if let Ok(bytes) = std::fs::read(io.wal_path) {
+        if len0 <= bytes.len() {
+            let (appended, stop) = decode_run(&bytes, len0, bytes.len());
+            if stop == bytes.len() {
+                rep.count("checked:records-appended-by-restart-script", appended.len() as u64);
+                let prior = |tx: u64| model.get(&tx).and_then(|t| t.done().map(|o| (o, t.was(), t.sfx())));
+                out.extend(completion_conflicts(&prior, &appended, names, rep));
+            }
+        }
+    }
+    // ---- no transaction that is completed by now holds a key lock
+    for (&tx, t) in model {
+        let completed = t.done().is_some() || done_now.iter().any(|(d, _, _)| *d == tx);
+        if completed && coord.get(tx).is_none() {
+            rep.count("checked:no-locks-of-completed-tx-at-end-of-script", 1);
+            let left = coord.lock_manager().keys_for_transaction(tx);
+            if !left.is_empty() {
+                out.push(Found {
+                    sig: "locks-of-completed-tx-held:at-end-of-restart-script".into(),
+                    detail: format!("{} is completed and unknown to the coordinator at the end of the restart script but holds key locks {:?}", names.n(tx), left),
+                });
+            }
+        }
+    }
     acks_out.extend(done_now);
     true
 }
 
 /// One restart on a copy of the log cut at `prefix.len()`, judged against `model`.
-fn eval_copy(img: &Path, prefix: &[u8], model: &Model, recs: &[Rec], removed_tx: &std::collections::BTreeSet<u64>, names: &Names, seed: u64, rep: &mut Report) -> Option<Vec<Found>> {
+fn eval_copy(img: &Path, prefix: &[u8], model: &Model, recs: &[Rec], removed_tx: &std::collections::BTreeSet<u64>, names: &Names, seed: u64, cto: u64, rep: &mut Report) -> Option<Vec<Found>> {
     if std::fs::write(img, prefix).is_err() {
         return None;
     }
@@ -863,8 +1106,9 @@ fn eval_copy(img: &Path, prefix: &[u8], model: &Model, recs: &[Rec], removed_tx:
     let mut srng = Rng::new(seed);
     match TxWal::open(img) {
         Ok(w) => {
-            let c = new_coordinator(w);
-            recovery_script(&c, model, names, recs, removed_tx, &mut srng, &mut found, rep, false, &mut Vec::new());
+            let c = new_coordinator_cfg(w, cto);
+            let mut io = ScriptIo { wal_path: img, xseed: seed, votes_logged: Vec::new() };
+            recovery_script(&c, model, names, recs, removed_tx, &mut srng, &mut found, rep, 0, &mut Vec::new(), &mut io);
         }
         Err(e) => found.push(Found { sig: "wal-open-failed".into(), detail: format!("TxWal::open failed: {}", e) }),
     }
@@ -874,11 +1118,11 @@ fn eval_copy(img: &Path, prefix: &[u8], model: &Model, recs: &[Rec], removed_tx:
 /// On a log with an unrepaired torn record the reader cannot see what was appended behind it. To
 /// tell that defect from anything else, the same restart is judged a second time against the model
 /// of the log *cut at the torn record*: signatures that arise there too are independent of it.
-fn independent_sigs(img: &Path, prefix: &[u8], seg_starts: &[usize], vote_accept: &HashMap<usize, bool>, acks: &[Ack], names: &Names, seed: u64) -> Vec<String> {
+fn independent_sigs(img: &Path, prefix: &[u8], seg_starts: &[usize], vote_accept: &HashMap<usize, bool>, acks: &[Ack], names: &Names, seed: u64, cto: u64) -> Vec<String> {
     let (recs, _) = logical_log_opt(prefix, prefix.len(), seg_starts, true);
     let Some(model) = build_model(&[], &recs, vote_accept, acks, prefix.len()) else { return Vec::new() };
     let mut scratch = Report::new();
-    eval_copy(img, prefix, &model, &recs, &Default::default(), names, seed, &mut scratch).unwrap_or_default().into_iter().map(|f| f.sig).collect()
+    eval_copy(img, prefix, &model, &recs, &Default::default(), names, seed, cto, &mut scratch).unwrap_or_default().into_iter().map(|f| f.sig).collect()
 }
 
 fn classify(garbage: bool, independent: &[String], f: Found) -> Found {
@@ -919,6 +1163,8 @@ struct Chain {
     rewritten_this_epoch: bool,
     /// outcomes the coordinators of this chain announced, with the file length at that moment
     acks: Vec<Ack>,
+    /// commit timeout all coordinators of this case are configured with
+    cto: u64,
 }
 
 impl Chain {
@@ -1059,6 +1305,10 @@ fn workload(coord: &DistributedTxCoordinator, ch: &mut Chain, rng: &mut Rng, ext
                     vote = PrepareVote::Yes { lock_handle: 2_000_000 + xr.below(1_000_000) as u64, delta: DeltaVector::zero(DIM) };
                     rep.count("op:no-vote-turned-into-yes", 1);
                 }
+                if matches!(vote, PrepareVote::Yes { .. }) && coord.get(tx).is_none() {
+                    let committed = known_done(tx).map(|d| d.0).or_else(|| live_done.get(&tx).map(|d| d.0)) == Some(TxOutcome::Committed);
+                    rep.count(if committed { "op:late-yes-vote-for-committed-tx" } else { "op:late-yes-vote-for-tx-that-is-not-pending" }, 1);
+                }
                 let at = file_len(&ch.path);
                 let res = coord.record_vote(tx, shard, vote);
                 if file_len(&ch.path) > at {
@@ -1091,6 +1341,17 @@ fn workload(coord: &DistributedTxCoordinator, ch: &mut Chain, rng: &mut Rng, ext
                     }
                 };
                 rep.count(&format!("op:{}{}", name, if ok { "-ok" } else { "-refused" }), 1);
+                if ok && epoch > 0 {
+                    // "locks of completed transactions are released", on a restarted coordinator
+                    rep.count("checked:no-locks-after-live-completion-on-restarted-coordinator", 1);
+                    let left = coord.lock_manager().keys_for_transaction(tx);
+                    if !left.is_empty() {
+                        out.push(Found {
+                            sig: format!("locks-left-after-completion:{}():on-restarted-coordinator", name),
+                            detail: format!("{}: {}() returned Ok on the restarted coordinator, the transaction is gone but still holds key locks {:?}", ch.names.n(tx), name, left),
+                        });
+                    }
+                }
                 if ok {
                     let reversed = match (logged, name) {
                         (Some(TxOutcome::Committed), "abort") | (Some(TxOutcome::Committed), "complete_abort") => Some("logged-commit-reversed"),
@@ -1131,6 +1392,16 @@ fn workload(coord: &DistributedTxCoordinator, ch: &mut Chain, rng: &mut Rng, ext
                 rep.count("timed_out", swept.len() as u64);
                 let len_now = file_len(&ch.path);
                 for tx in swept {
+                    if epoch > 0 {
+                        rep.count("checked:no-locks-after-live-completion-on-restarted-coordinator", 1);
+                        let left = coord.lock_manager().keys_for_transaction(tx);
+                        if !left.is_empty() {
+                            out.push(Found {
+                                sig: "locks-left-after-completion:cleanup_timeouts():on-restarted-coordinator".into(),
+                                detail: format!("{}: cleanup_timeouts() on the restarted coordinator returned it, the transaction is gone but still holds key locks {:?}", ch.names.n(tx), left),
+                            });
+                        }
+                    }
                     if let Some((o, was, sfx)) = known_done(tx).or_else(|| live_done.get(&tx).map(|(o, how)| (*o, format!("was completed as {:?} by this coordinator ({} returned it)", o, how), String::new()))) {
                         out.push(Found {
                             sig: format!("logged-outcome-reversed:timed-out-after-{:?}{}", o, sfx),
@@ -1156,7 +1427,25 @@ fn workload(coord: &DistributedTxCoordinator, ch: &mut Chain, rng: &mut Rng, ext
                 if block_on(coord.process_pending_aborts(&*transport)).is_none() {
                     rep.inconclusive("process_pending_aborts did not finish");
                 }
-                let _ = transport.drain();
+                // no ABORT goes out for a transaction that is completed as committed
+                for (_, msg) in transport.drain() {
+                    if let tensor_chain::network::Message::TxAbort(a) = msg {
+                        rep.count("abort_messages_seen", 1);
+                        let committed = known_done(a.tx_id)
+                            .filter(|d| d.0 == TxOutcome::Committed)
+                            .map(|(_, was, sfx)| (format!("{} (before the crash)", was), sfx))
+                            .or_else(|| match live_done.get(&a.tx_id) {
+                                Some((TxOutcome::Committed, how)) => Some((format!("was completed as Committed by this coordinator ({} returned Ok)", how), String::new())),
+                                _ => None,
+                            });
+                        if let Some((was, sfx)) = committed {
+                            out.push(Found {
+                                sig: format!("logged-commit-reversed:abort-broadcast-sent{}", sfx),
+                                detail: format!("{} {}; process_pending_aborts() sent TxAbort(reason {:?}) for it to shard(s) {:?}", ch.names.n(a.tx_id), was, a.reason, a.shards),
+                            });
+                        }
+                    }
+                }
                 rep.count("op:abort-broadcast", 1);
             }
             _ => {
@@ -1287,7 +1576,9 @@ fn run_case(args: &Args, case_seed: u64, rep: &mut Report) {
         cur_seg: None,
         rewritten_this_epoch: false,
         acks: Vec::new(),
+        cto: commit_timeout_of_case(case_seed),
     };
+    rep.count(if ch.cto == 0 { "cases_with_commit_timeout_0" } else { "cases_with_default_commit_timeout" }, 1);
     let crashes = 1 + rng.below(3);
     let cap = args.by_tier(700usize, 4000usize);
     let mut valid_end_prev = 0usize; // where the decodable chain of the cut file ended
@@ -1307,7 +1598,7 @@ fn run_case(args: &Args, case_seed: u64, rep: &mut Report) {
             }
         };
         let open_len = file_len(&ch.path);
-        let coord = new_coordinator(wal);
+        let coord = new_coordinator_cfg(wal, ch.cto);
         ch.last_bytes = std::fs::read(&ch.path).unwrap_or_default();
         ch.cur_seg = Some(if epoch == 0 { 0 } else { open_len });
         ch.rewritten_this_epoch = false;
@@ -1325,8 +1616,21 @@ fn run_case(args: &Args, case_seed: u64, rep: &mut Report) {
             let mut srng = Rng::new(script_seed);
             // in a few restarts the 5 s deadline of restored transactions is allowed to pass
             let late = hash_combine(case_seed, 0x1A7E + epoch as u64) % args.by_tier(40u64, 200u64) == 0;
+            // the thorough tier also waits out the default commit timeout (twice the 5 s)
+            let late_wait_ms = if !late {
+                0
+            } else if !args.quick() && ch.cto > 5000 && hash_combine(case_seed, 0x1A7F) % 2 == 0 {
+                ch.cto + 100
+            } else {
+                5100
+            };
             let mut announced = Vec::new();
-            let ok = recovery_script(&coord, &model, &ch.names, &recs, &ch.removed_tx(), &mut srng, &mut found, rep, late, &mut announced);
+            let mut io = ScriptIo { wal_path: &ch.path, xseed: script_seed, votes_logged: Vec::new() };
+            let ok = recovery_script(&coord, &model, &ch.names, &recs, &ch.removed_tx(), &mut srng, &mut found, rep, late_wait_ms, &mut announced, &mut io);
+            // verdicts of the votes the script logged (re-delivered messages)
+            for (at, acc) in io.votes_logged.drain(..) {
+                ch.vote_accept.insert(at, acc);
+            }
             // what this coordinator announced during the script precedes every crash from here on
             let len_now = file_len(&ch.path);
             for (tx, outcome, how) in announced {
@@ -1346,7 +1650,7 @@ fn run_case(args: &Args, case_seed: u64, rep: &mut Report) {
                 rep.count("restarts_with_unrepaired_torn_tail", 1);
             }
             let indep = if garbage && !found.is_empty() {
-                independent_sigs(&ch.img, &pre_bytes, &ch.seg_starts, &ch.vote_accept, &ch.acks, &ch.names, script_seed)
+                independent_sigs(&ch.img, &pre_bytes, &ch.seg_starts, &ch.vote_accept, &ch.acks, &ch.names, script_seed, ch.cto)
             } else {
                 Vec::new()
             };
@@ -1397,6 +1701,13 @@ fn run_case(args: &Args, case_seed: u64, rep: &mut Report) {
             // what this coordinator accepted depends on what it could read at its restart: if the
             // log then had a torn record with records behind it, it never saw those outcomes
             let _ = garbage;
+            // the records this incarnation appended (restart script and live calls, late votes
+            // included) never complete a transaction against an earlier completion
+            {
+                let prior = |tx: u64| known.get(&tx).and_then(|t| t.done().map(|o| (o, format!("{} (before the crash)", t.was()), t.sfx())));
+                let appended = decode_run(&bytes, seg, total).0;
+                found.extend(completion_conflicts(&prior, &appended, &ch.names, rep));
+            }
             let found: Vec<Found> = found.into_iter().map(|f| classify(restart_garbage, &[], f)).collect();
             report(found, rep, case_seed, epoch, total, "live", &log);
             if rep.want_sample() && epoch == 0 && recs.len() >= 8 {
@@ -1416,7 +1727,7 @@ fn run_case(args: &Args, case_seed: u64, rep: &mut Report) {
                 continue;
             };
             let seed = case_seed ^ (b as u64).wrapping_mul(0x9E37_79B9) ^ ((epoch as u64) << 56);
-            let Some(found) = eval_copy(&ch.img, &bytes[..b], &model, &recs, &removed_tx, &ch.names, seed, rep) else {
+            let Some(found) = eval_copy(&ch.img, &bytes[..b], &model, &recs, &removed_tx, &ch.names, seed, ch.cto, rep) else {
                 rep.inconclusive("scratch write failed");
                 continue;
             };
@@ -1429,7 +1740,7 @@ fn run_case(args: &Args, case_seed: u64, rep: &mut Report) {
             let log = describe_all(&ch.removed, &recs, &ch.names, &ch.vote_accept);
             rep.eval(hash_combine(hash_str(&log), b as u64 - recs.last().map(|r| r.end).unwrap_or(0) as u64), is_nontrivial(&model));
             if !found.is_empty() {
-                let indep = if garbage { independent_sigs(&ch.img, &bytes[..b], &ch.seg_starts, &ch.vote_accept, &ch.acks, &ch.names, seed) } else { Vec::new() };
+                let indep = if garbage { independent_sigs(&ch.img, &bytes[..b], &ch.seg_starts, &ch.vote_accept, &ch.acks, &ch.names, seed, ch.cto) } else { Vec::new() };
                 let found: Vec<Found> = found.into_iter().map(|f| classify(garbage, &indep, f)).collect();
                 report(found, rep, case_seed, epoch, b, "image", &log);
             }
@@ -1662,7 +1973,7 @@ fn main() {
 
     let meta = Meta {
         property: "C13",
-        rule: "one evaluation = one restart of the real coordinator from a log cut at one byte (every byte length of what each crashed epoch wrote, on a copy; plus the restarts of the chain itself, which continue with new transactions and up to two more crashes). The obligations of a restart come from the harness's own decoding of the durable prefix, from the coordinator's answers to the votes (collected = a vote of every participant accepted) and from the outcomes the coordinator announced before the crash point (commit/abort Ok, timeouts reported by the sweeper). Distinct by the hash of the durable record sequence (transaction indices, not ids) and the offset of the cut inside the torn record; non-trivial if the durable prefix holds at least one transaction that is past vote collection (prepared / committing / aborting / completed), i.e. there is something to preserve.",
+        rule: "one evaluation = one restart of the real coordinator from a log cut at one byte (every byte length of what each crashed epoch wrote, on a copy; plus the restarts of the chain itself, which continue with new transactions and up to two more crashes). The obligations of a restart come from the harness's own decoding of the durable prefix, from the coordinator's answers to the votes (collected = a vote of every participant accepted) and from the outcomes the coordinator announced before the crash point (commit/abort Ok, timeouts reported by the sweeper). Distinct by the hash of the durable record sequence (transaction indices, not ids) and the offset of the cut inside the torn record; non-trivial if the durable prefix holds at least one transaction that is past vote collection (prepared / committing / aborting / completed), i.e. there is something to preserve. Every restart script also re-delivers messages (votes for completed / forgotten transactions, PREPAREs for restored ones), sweeps before and after the completion calls with all configurable timeouts at 0 ms, tries the opposite completion on decisions it handed out, and ends with a look at the records it appended to the log and at the lock table.",
         assumptions: vec![
             "a crash is a process crash: the file is a prefix of what was written; every append is fsynced before the call returns, so each record boundary is an acknowledgement point".into(),
             "a vote counts as collected iff the live coordinator accepted it (record_vote returned Ok); the coordinator logs votes before validating them, so the log also holds rejected votes".into(),
@@ -1671,6 +1982,9 @@ fn main() {
             "a transaction has collected all votes iff the live coordinator accepted a vote of every shard in its participant list (TxBegin record); accepted votes of other shards are restored like any accepted vote but never complete a collection".into(),
             "recovery calls are also issued on the running coordinator between further transactions: a transaction that was pending and held coordinator key locks before such a call may be kept or forgotten by it, but if it is forgotten its locks must be gone (only recovery calls are judged this way; late PREPAREs and the timeout sweeper can leave locks of unknown handles behind, which is C12's subject)".into(),
             "a completed transaction found among the pending ones after restart is reported, because the timeout sweeper would abort it 5 s later; the harness does not wait for that".into(),
+            "messages delivered again after a restart: every restart script sends votes for transactions that are not pending (completed or forgotten; synthetic lock handles, no locks taken) and PREPAREs for restored ones (through the coordinator's handle_prepare, which takes key locks under a fresh handle; the vote is refused). Only what the statement names is judged on them: a completed outcome stays (no abort broadcast for a committed transaction, no completion record of the opposite outcome appended to the log), and a transaction the coordinator then completes holds no key lock afterwards. What such a vote does for a forgotten transaction is not judged".into(),
+            "a decision get_pending_decisions() of the restarted coordinator handed out (COMMIT for Committing, ABORT for Aborting) is taken as an announced outcome, like a completion a call returned: the sweeper and the opposite completion calls must leave it alone (signatures handed-out-decision-reversed:*). This is the reading under which the statement's 'never afterwards aborted or timed out' reaches a transaction whose COMMIT is logged as a phase change but whose completion record is missing; a timeout of a restored transaction that is still undecided (Prepared) remains a legitimate completion".into(),
+            "all coordinators of a case share one configuration: prepare timeout 0 ms, commit timeout 0 ms in three quarters of the cases and the default (10 s) in the rest; the harness sleeps 1.1 ms before a sweep of a restarted coordinator that has pending transactions so that a 0 ms deadline is over (restored transactions get 5 s from the code, which only the late sweeps wait out; in the thorough tier some late sweeps wait out the default commit timeout as well)".into(),
             "violations observed on a log that contains a torn record followed by appended records are attributed to that defect (signature torn-tail-then-append:*) unless the same signature also arises when the restart is judged against the log cut at the torn record (what a reader that cannot skip it sees)".into(),
         ],
         floors: if args.replay.is_some() {
@@ -1707,6 +2021,22 @@ fn main() {
                 ("checked:collecting-with-as-many-yes-votes-as-participants", 2_000),
                 // restored transactions really timed out by the sweeper (5.1 s waits)
                 ("restored_tx_timed_out_after_restart", 1),
+                // messages delivered again after the restart, and what was looked at afterwards
+                ("redelivery:yes-vote-for-committed-tx", 5_000),
+                ("redelivery:vote-for-aborted-tx", 50_000),
+                ("redelivery:restored-tx-holds-fresh-locks", 20_000),
+                ("checked:records-appended-by-restart-script", 100_000),
+                ("checked:no-locks-after-live-completion-on-restarted-coordinator", 100),
+                ("op:late-yes-vote-for-committed-tx", FLOOR_LIVE_LATE_VOTE),
+                ("abort_messages_seen", 200),
+                // decisions handed out by the restarted coordinator, then the opposite call / a sweep
+                ("hostile:abort-after-COMMIT-handed-out", 3_000),
+                ("hostile:commit-after-ABORT-handed-out", 500),
+                ("early_sweeps_after_restart", 10_000),
+                ("sweeps_after_restart_with_0ms_deadlines_over", 5_000),
+                ("decided_tx_pending_at_sweep_with_0ms_deadlines_over", FLOOR_DECIDED_AT_SWEEP),
+                ("cases_with_commit_timeout_0", 200),
+                ("cases_with_default_commit_timeout", 50),
             ]
         },
         exhaustive: false,
